@@ -115,8 +115,8 @@ func c02Oracle(res *vResult) func(h *hRunner, op *hOp, ex *vExchange, rep *vRepl
 			}
 			if er.NodeID == nil {
 				bad("C02.R6", "est-no-nodeid", "%s: accepted establishment without the agent's Node ID", op.Desc)
-			} else if id, err := er.NodeID.NodeID(); err != nil || id != h.a.opts.N4 {
-				bad("C02.R6", "est-nodeid", "%s: Node ID %q, agent's N4 address is %s", op.Desc, id, h.a.opts.N4)
+			} else if id, err := er.NodeID.NodeID(); err != nil || id != c02NodeID(h.a) {
+				bad("C02.R6", "est-nodeid", "%s: Node ID %q, the agent's Node ID is %s (N4 address %s)", op.Desc, id, c02NodeID(h.a), h.a.opts.N4)
 			}
 			if er.UPFSEID == nil {
 				bad("C02.R6", "est-no-fseid", "%s: accepted establishment without UP F-SEID", op.Desc)
@@ -204,6 +204,14 @@ func c02Addressable(h *hRunner, op *hOp) bool {
 	return ok
 }
 
+// c02NodeID: the configured Node ID, the N4 address otherwise.
+func c02NodeID(a *vAgent) string {
+	if a.opts.NodeID != "" {
+		return a.opts.NodeID
+	}
+	return a.opts.N4
+}
+
 func c02Cfg(rng *rand.Rand, up4 bool) hCfg {
 	c := hCfg{NAssoc: 1 + rng.Intn(3), MaxSess: 5, Steps: 14 + rng.Intn(10), PChoose: 40, PAlloc: 30, PSDF: 40, Canonical: true,
 		MaxPortWidth: 4, MaxPairs: 1, MaxQER: 2, Negatives: true, Extras: true, UP4: up4, SamePrecPair: up4,
@@ -248,8 +256,8 @@ func TestVerif_C02(t *testing.T) {
 	res.assume("loopback UDP delivers datagrams of one socket pair in order (responses are counted between heartbeat barriers)")
 	res.assume("heartbeat sequence numbers 0x700000-0x7FFFFF are reserved for the barrier and not used for requests under test")
 	res.assume("UE address allocation is requested on the downlink PDR (Created-PDR count is not judged when only an uplink PDR asks for it)")
-	nh := vEnv.pick(1000, 12000)
-	var agents [2]*vAgent
+	nh := vEnv.pick(1000, 40000)
+	var agents [3]*vAgent
 	defer func() {
 		for _, a := range agents {
 			if a != nil {
@@ -267,9 +275,14 @@ func TestVerif_C02(t *testing.T) {
 		k := 0
 		if up4 {
 			k = 1
+		} else if rng.Intn(3) == 0 {
+			k = 2 // BESS agent with a configured Node ID that is not its N4 address
 		}
 		if agents[k] == nil {
 			o := vDefaultOpts(up4, vEnv.addr(1+k))
+			if k == 2 {
+				o.NodeID = "198.51.100.7"
+			}
 			o.UEAlloc, o.UEPool = true, "10.60.0.0/16"
 			o.ReadTimeout = 30 * time.Second
 			a, err := vStartAgent(o)
